@@ -15,6 +15,7 @@ import (
 	"time"
 
 	"github.com/diiyw/nodis"
+	"github.com/diiyw/nodis/redis"
 	"github.com/diiyw/nodis/storage"
 )
 
@@ -531,6 +532,7 @@ type tracer struct {
 	notified      map[int]int             // waiter -> wake-ups offered so far
 	pushes        map[any]map[int]int     // wake-up round in progress -> waiters registered at its start, with their counters
 	pushViolation string
+	served        map[uint64]bool // goroutines that have been reported as serving a connection
 	mini          map[any]*miniTx // who (a *int64) -> state of the mini transaction
 	miniRec       map[int]any     // record -> mini transaction currently holding it in w mode
 }
@@ -541,7 +543,7 @@ type miniTx struct {
 }
 
 func newTracer() *tracer {
-	return &tracer{txIDs: map[any]int{}, recIDs: map[any]int{}, recName: map[int]string{}, mini: map[any]*miniTx{}, miniRec: map[int]any{}, waiters: map[any]int{}, returned: map[int]bool{}, regKeys: map[int]map[string]bool{}, notified: map[int]int{}, pushes: map[any]map[int]int{}}
+	return &tracer{served: map[uint64]bool{}, txIDs: map[any]int{}, recIDs: map[any]int{}, recName: map[int]string{}, mini: map[any]*miniTx{}, miniRec: map[int]any{}, waiters: map[any]int{}, returned: map[int]bool{}, regKeys: map[int]map[string]bool{}, notified: map[int]int{}, pushes: map[any]map[int]int{}}
 }
 
 func kx(key string) string { return fmt.Sprintf("k%x", key) }
@@ -606,6 +608,28 @@ func (tr *tracer) hook(ev string, who any, key string, m any, flag bool) {
 				}
 			}
 			delete(tr.pushes, who)
+		}
+		return
+	}
+	switch ev {
+	case "gate-in", "gate-out", "gate-serve", "exec-check", "exec-run", "signal":
+		// the gate that makes EXEC exclusive: a third model (`gev` lines), keyed by goroutine
+		g := goid()
+		if _, isConn := who.(*redis.Conn); isConn && !tr.served[g] {
+			tr.served[g] = true
+			tr.lines = append(tr.lines, fmt.Sprintf("gev serve %d", g))
+		}
+		switch ev {
+		case "gate-in":
+			tr.lines = append(tr.lines, fmt.Sprintf("gev gin %d %s", g, key))
+		case "gate-out":
+			tr.lines = append(tr.lines, fmt.Sprintf("gev gout %d", g))
+		case "exec-check":
+			tr.lines = append(tr.lines, fmt.Sprintf("gev chk %d", g))
+		case "exec-run":
+			tr.lines = append(tr.lines, fmt.Sprintf("gev run %d", g))
+		case "signal":
+			tr.lines = append(tr.lines, fmt.Sprintf("gev sig %d", g))
 		}
 		return
 	}
@@ -704,6 +728,7 @@ func (tr *tracer) hook(ev string, who any, key string, m any, flag bool) {
 		t = tr.nextTx
 		tr.txIDs[who] = t
 		tr.emit("begin %d", t)
+		tr.lines = append(tr.lines, fmt.Sprintf("gev txb %d %d", goid(), t))
 	}
 	switch ev {
 	case "look":
@@ -734,8 +759,24 @@ func (tr *tracer) hook(ev string, who any, key string, m any, flag bool) {
 		tr.emit("commit %d", t)
 	case "end":
 		tr.emit("fin %d", t)
+		tr.lines = append(tr.lines, fmt.Sprintf("gev txe %d %d", goid(), t))
 		delete(tr.txIDs, who)
 	}
+}
+
+// goid: the id of the calling goroutine (from the first line of its stack trace)
+func goid() uint64 {
+	var buf [64]byte
+	b := buf[:runtime.Stack(buf[:], false)]
+	b = b[len("goroutine "):]
+	var id uint64
+	for _, ch := range b {
+		if ch < '0' || ch > '9' {
+			break
+		}
+		id = id*10 + uint64(ch-'0')
+	}
+	return id
 }
 
 func b01(b bool) string {
@@ -1683,3 +1724,123 @@ func scScanConcurrent(n *nodis.Nodis, r *rand.Rand, rounds int) string {
 }
 
 func init() { scenarios["scan-concurrent"] = scScanConcurrent }
+
+// ---- EXEC against blocking pops of other clients (C08 / C09) -------------------------------------
+
+// A waiter blocked in BLPOP is woken by a push that happens inside another client's transaction. The
+// pop must not take effect before that transaction is over: inside MULTI ... EXEC the pushing client
+// reads the list again and must find its own element (the transaction is isolated), and a WATCHing
+// client's EXEC that started before the pop must not have its watched list changed under it.
+func scTCPExecBPop(addr string, n *nodis.Nodis, rounds int) string {
+	w, err := dial(addr)
+	if err != nil {
+		return "FAIL dial"
+	}
+	defer w.c.Close()
+	big := strings.Repeat("y", 50000)
+	for round := 0; round < rounds; round++ {
+		key := fmt.Sprintf("bq%d", round)
+		b, err := dial(addr)
+		if err != nil {
+			return "FAIL dial"
+		}
+		popped := make(chan []tok, 1)
+		go func() {
+			g, _ := b.do("BLPOP", key, "5")
+			popped <- g
+		}()
+		// wait until the waiter is registered (it shows as a blocked client: no reply yet)
+		time.Sleep(3 * time.Millisecond)
+		w.do("MULTI")
+		w.do("RPUSH", key, "x")
+		w.do("DEL", "filler")
+		for f := 0; f < 40; f++ {
+			w.do("APPEND", "filler", big) // something to do between the push and the read
+		}
+		w.do("LLEN", key)
+		w.do("LRANGE", key, "0", "-1")
+		e, err := w.do("EXEC")
+		g := <-popped
+		b.c.Close()
+		if err != nil || len(e) < 4 {
+			return fmt.Sprintf("FAIL EXEC reply %v %v (round %d)", e, err, round)
+		}
+		// reply: *44, :n (DEL), :1 (RPUSH), 40 x :len, :LLEN, *k [elements]
+		llen := e[43]
+		if llen.n != 1 {
+			return fmt.Sprintf("FAIL another client's BLPOP took effect in the middle of MULTI; RPUSH %s x; ...; LLEN %s; EXEC: the transaction pushed one element and then read LLEN = %d (the waiter got %v) (round %d)", key, key, llen.n, g, round)
+		}
+		if len(g) != 3 || g[2].text != "x" {
+			return fmt.Sprintf("FAIL the waiter did not get the element after the transaction: %v (round %d)", g, round)
+		}
+	}
+	return fmt.Sprintf("ok rounds=%d", rounds)
+}
+
+func init() { scenarios["tcp-exec-bpop"] = tcpScenario(scTCPExecBPop) }
+
+// WATCH against blocking pops of another client (C09): when the EXEC runs, the watched list is exactly
+// as it was read after the WATCH - at the beginning and at the end of the transaction
+func scTCPWatchBPop(addr string, n *nodis.Nodis, rounds int) string {
+	a, err := dial(addr)
+	if err != nil {
+		return "FAIL dial"
+	}
+	defer a.c.Close()
+	b, err := dial(addr)
+	if err != nil {
+		return "FAIL dial"
+	}
+	defer b.c.Close()
+	big := strings.Repeat("y", 20000)
+	stop := make(chan struct{})
+	var wg sync.WaitGroup
+	wg.Add(1)
+	go func() {
+		defer wg.Done()
+		for i := 0; ; i++ {
+			select {
+			case <-stop:
+				return
+			default:
+			}
+			b.do("RPUSH", "wq", "e", "f")
+			b.do("BLPOP", "nothing-here", "wq", "1") // pops at once
+			b.do("BRPOP", "wq", "1")
+		}
+	}()
+	ran, aborted := 0, 0
+	res := ""
+	for j := 0; j < rounds*30 && res == ""; j++ {
+		a.do("WATCH", "wq")
+		l0, _ := a.do("LLEN", "wq")
+		a.do("MULTI")
+		a.do("LLEN", "wq")
+		for f := 0; f < 6; f++ {
+			a.do("SET", "wfill", big)
+		}
+		a.do("LLEN", "wq")
+		e, err := a.do("EXEC")
+		switch {
+		case err != nil:
+			res = "FAIL EXEC: " + err.Error()
+		case len(e) == 1:
+			aborted++
+		case len(e) == 9 && len(l0) == 1:
+			ran++
+			if e[1].n != l0[0].n || e[8].n != l0[0].n {
+				res = fmt.Sprintf("FAIL WATCH wq; LLEN wq = %d; MULTI; LLEN wq; ...; LLEN wq; EXEC ran and read %d and %d: the watched list was changed by another client's blocking pop between the WATCH and the end of the transaction", l0[0].n, e[1].n, e[8].n)
+			}
+		default:
+			res = fmt.Sprintf("FAIL EXEC reply %v", e)
+		}
+	}
+	close(stop)
+	wg.Wait()
+	if res != "" {
+		return res
+	}
+	return fmt.Sprintf("ok ran=%d aborted=%d", ran, aborted)
+}
+
+func init() { scenarios["tcp-watch-bpop"] = tcpScenario(scTCPWatchBPop) }
